@@ -156,6 +156,14 @@ pub fn run_sweep(ctx: &Ctx, rep: &mut Report) {
     for n in [9usize, 10, 21, 70] {
         groups.push((Cmd::BuildHalf, n));
     }
+    // scaffold gaps: sample 3 of 12 carries one unbroken run of 8 000 / 30 000 N (read on a pool thread as soon as
+    // --threads >= 2: smaller stack than the main thread's); n + GAP_MARK * gap encodes the group
+    const GAP_MARK: usize = 1000;
+    for gap in [8usize, 30] {
+        for c in [Cmd::Build, Cmd::AlignFa, Cmd::MapAlnFa] {
+            groups.push((c, 12 + GAP_MARK * gap));
+        }
+    }
     for (cmd, n) in groups {
         idx += 1;
         if !ctx.mine(idx) {
@@ -165,7 +173,16 @@ pub fn run_sweep(ctx: &Ctx, rep: &mut Report) {
             rep.capped = true;
             return;
         }
-        let (g, samples) = family(n, ctx.seed);
+        let gap = (n / GAP_MARK) * 1000;
+        let n = n % GAP_MARK;
+        let (g, mut samples) = family(n, ctx.seed);
+        if gap > 0 {
+            let s = &mut samples[3][0];
+            let tail = s.split_off(130);
+            s.extend(std::iter::repeat(b'N').take(gap));
+            s.extend(tail);
+            rep.corner("sample_with_a_long_run_of_N");
+        }
         let dir = scratch::path("c11");
         let _ = std::fs::remove_dir_all(&dir);
         std::fs::create_dir_all(&dir).unwrap();
